@@ -20,6 +20,13 @@ CHECKS["C12"] = dict(
     note="Trusted: Coq kernel incl. vm_compute; the fail-closed translator mathtable.py (literal table rows, textual normal form of add_function_mapping and find_known_functions.visit_Call, README regex, builtins' __module__ from the interpreter); the hand-written <cmath> signature table; what each std:: function computes (C library). Traces are tests.",
     technique="Coq proof by computation over a table regenerated from source + end-to-end traces",
 )
+CHECKS["C03"] = dict(
+    category="proof",
+    text="Schema: for every backend, terminal form (dict | tuple | list | bare | AsROOTTTree with any names), column list and name-counter value, Coq proves on a hand model of get_as_ROOT / call_ResultTTree / get_ttree_type / unique_name / class_declaration_code / book_*_ttree.emit that the booked branch names are exactly the names the final expression gives, in order, each column typed by its element type (value | vector | vector of vectors; structures refused) and declared as a class member, the tree is <prefix>_tree or the given one, the descriptor is (ANALYSIS.root, tree), a column/label count mismatch is RuntimeError (C03_schema, C03_mismatch, C03_types, ...); class variables are proved pairwise distinct for names not ending in a digit and refuted in general (known finding). Storage: a Coq-defined checker fill_consistent on the IR parsed from the emitted code is proved sound over the Exec semantics for all programs, events, member states and event sequences (every row has one entry per branch of the member's declared shape, Fill reads exactly the scoped column variables, vector columns are empty right after each Fill) and is run on the program the implementation emits for every generated query (queries are sampled). Output file: the constants of the three runner.sh, ATestRun_eljob.py, analyzer_cfg.py, copy_root_tree.C and the translator's file-name literal are regenerated on every run and Coq proves by computation that the descriptor's file is the one each backend's runner delivers.",
+    design_ref="5.3",
+    note="Trusted: Coq kernel incl. vm_compute; hand model TreeSchema.v tied to the code by a differential correspondence (booking lines, class declarations, descriptor, exception class) over structured terminal forms x column kinds x name lists x 3 backends and random queries; the input abstraction (column representation, name counter read off the first branch variable); IR/Exec stand-in C++ semantics and the fail-closed parser (round-trip checked); fail-closed regex translator outfile.py and the modelled meaning of the EventLoop / TFileService / cp naming; expression typing (int, /, conditional, comparison) is decided by an independent Python oracle on generated queries, not by a theorem; extraction and OCaml driver. ROOT itself is not run.",
+    technique="Coq proof (schema theorems by induction over column lists; verified checker with soundness by mutual structural induction over the IR; computation on regenerated constants) + translation validation of the emitted program + model/implementation correspondence",
+)
 NOT_YET = {}
 
 def main():
